@@ -8,6 +8,7 @@ import (
 	"net/http"
 	"os"
 	"path/filepath"
+	"reflect"
 	"runtime"
 	"sort"
 	"strconv"
@@ -146,7 +147,6 @@ type Fixture struct {
 	L        *FListener
 	Base     string
 	TLSBase  string // the teamserver's own TLS listener (used under the race detector, see DialTLS)
-	baseline int
 	Fresh    bool // first use of this teamserver
 	uses     int
 	clients  []*Client
@@ -193,14 +193,8 @@ func newFixture(users []User) (*Fixture, error) {
 
 	go http.Serve(l, ts.Server.Engine)
 	f := &Fixture{TS: ts, L: l, Base: fmt.Sprintf("ws://127.0.0.1:%d", l.Port()), TLSBase: fmt.Sprintf("wss://127.0.0.1:%d", tlsPort), Fresh: true}
-	f.baseline = runtime.NumGoroutine()
 	if ts.DB != firstDB {
-		// closing a sql.DB ends its connectionOpener goroutine (asynchronously): the
-		// baseline is what remains after that
 		tsx.CloseDB(firstDB)
-		if f.QuiesceTo(-1, time.Second) {
-			f.baseline--
-		}
 	}
 	return f, nil
 }
@@ -329,13 +323,44 @@ func (f *Fixture) PurgeDead(addrs []string) {
 	}
 }
 
-// Quiesce waits until no goroutine of the case is left (count back at the baseline
-// measured when the teamserver had just started).
-func (f *Fixture) Quiesce(d time.Duration) bool {
+// LiveHandlers counts the goroutines that are executing this teamserver's connection
+// code right now: an operator handler (handleRequest with this Teamserver as receiver),
+// a service connection handler (handleConnection of this Service), or an HTTP
+// connection goroutine that is inside a Havoc route handler.  It reads a dump of all
+// goroutines; nothing is inferred from goroutine counts.
+func (f *Fixture) LiveHandlers() int {
+	buf := make([]byte, 1<<18)
+	for {
+		n := runtime.Stack(buf, true)
+		if n < len(buf) {
+			buf = buf[:n]
+			break
+		}
+		buf = make([]byte, 2*len(buf))
+	}
+	tsArg := fmt.Sprintf("handleRequest(%#x,", reflect.ValueOf(f.TS).Pointer())
+	svcArg := "\x00"
+	if f.TS.Service != nil {
+		svcArg = fmt.Sprintf("handleConnection(%#x,", reflect.ValueOf(f.TS.Service).Pointer())
+	}
+	live := 0
+	for _, g := range bytes.Split(buf, []byte("\n\n")) {
+		switch {
+		case bytes.Contains(g, []byte(tsArg)), bytes.Contains(g, []byte(svcArg)):
+			live++
+		case bytes.Contains(g, []byte("net/http.(*conn).serve")) && bytes.Contains(g, []byte("\nHavoc/")):
+			live++
+		}
+	}
+	return live
+}
+
+// WaitHandlers waits until at most n connection handlers of this teamserver are running.
+func (f *Fixture) WaitHandlers(n int, d time.Duration) bool {
 	deadline := time.Now().Add(d)
 	sleep := 100 * time.Microsecond
 	for {
-		if runtime.NumGoroutine() <= f.baseline {
+		if f.LiveHandlers() <= n {
 			return true
 		}
 		if time.Now().After(deadline) {
@@ -347,6 +372,9 @@ func (f *Fixture) Quiesce(d time.Duration) bool {
 		}
 	}
 }
+
+// Quiesce waits until no connection handler of this teamserver is running.
+func (f *Fixture) Quiesce(d time.Duration) bool { return f.WaitHandlers(0, d) }
 
 // Release ends a case: every client and every server-side connection is closed, the
 // reader goroutines are joined, and the teamserver is kept for the next case only if
@@ -379,7 +407,7 @@ func (f *Fixture) Release(dirty bool) {
 	if !q && os.Getenv("VERIF_WSX_DEBUG") != "" {
 		buf := make([]byte, 1<<20)
 		n := runtime.Stack(buf, true)
-		fmt.Fprintf(os.Stderr, "NOT QUIESCENT baseline=%d now=%d\n%s\n", f.baseline, runtime.NumGoroutine(), buf[:n])
+		fmt.Fprintf(os.Stderr, "NOT QUIESCENT live=%d\n%s\n", f.LiveHandlers(), buf[:n])
 	}
 	if dirty || !q {
 		f.drop()
